@@ -558,6 +558,9 @@ func c06Run(r *Run) {
 	// ---- SINK ----
 	r.curRule = "C06-SINK"
 	c06OneValueManySlots(r, pkgs)
+	if np := r.pkg("node"); np != nil {
+		c06CopySkipped(r, np)
+	}
 	var clonesValueD func(p *packages.Package, fd *ast.FuncDecl, param types.Object, depth int) bool
 	clonesValue := func(p *packages.Package, fd *ast.FuncDecl, param types.Object) bool {
 		return clonesValueD(p, fd, param, 0)
@@ -1629,4 +1632,182 @@ func c06LeavesLoopAfter(loop ast.Stmt, call *ast.CallExpr) bool {
 		return true
 	})
 	return leaves
+}
+
+// c06CopySkipped (C06-SINK, clause #copy-skipped): where the copy of an array before a store is made
+// conditional on a predicate over the *producing node* (`if av, ok := v.(*ArrayValue); ok && !fresh(node) {
+// v = Clone(av) }`), the predicate may answer true only for node types whose evaluation builds the array anew
+// every time: each type it accepts has a GetValue whose array results are allocated in that method. A call
+// node or a variable node hands back an array somebody else still holds.
+func c06CopySkipped(r *Run, np *packages.Package) {
+	info := np.TypesInfo
+	declByObj := map[types.Object]*ast.FuncDecl{}
+	for _, fd := range funcDecls(np) {
+		declByObj[info.Defs[fd.Name]] = fd
+	}
+	isArrPtr := func(t types.Type) bool {
+		pt, ok := t.(*types.Pointer)
+		return ok && isNamed(pt.Elem(), modPath+"/data", "ArrayValue")
+	}
+	// does every array-typed result of (*T).GetValue come from an allocation in that method?
+	buildsFresh := func(t types.Type) (bool, string) {
+		nt := namedOf(t)
+		if pt, ok := t.(*types.Pointer); ok {
+			nt = namedOf(pt.Elem())
+		}
+		if nt == nil {
+			return false, "not a node type"
+		}
+		gv := findFunc(np, nt.Obj().Name(), "GetValue")
+		if gv == nil || gv.Body == nil {
+			return false, "no GetValue method found"
+		}
+		fresh := map[types.Object]bool{}
+		ast.Inspect(gv.Body, func(n ast.Node) bool {
+			if as, ok := n.(*ast.AssignStmt); ok && len(as.Lhs) == len(as.Rhs) {
+				for i, rh := range as.Rhs {
+					isNew := false
+					switch x := ast.Unparen(rh).(type) {
+					case *ast.UnaryExpr:
+						if cl, ok := x.X.(*ast.CompositeLit); ok && x.Op == token.AND && isNamed(info.TypeOf(cl), modPath+"/data", "ArrayValue") {
+							isNew = true
+						}
+					case *ast.CallExpr:
+						if cal, ok := calleeOf(info, x).(*types.Func); ok && cal.Name() == "NewArrayValue" {
+							isNew = true
+						}
+						if ta, ok := ast.Unparen(x.Fun).(*ast.SelectorExpr); ok && ta.Sel.Name == "NewArrayValue" {
+							isNew = true
+						}
+					case *ast.TypeAssertExpr:
+						if c, ok := ast.Unparen(x.X).(*ast.CallExpr); ok {
+							if cal, ok := calleeOf(info, c).(*types.Func); ok && cal.Name() == "NewArrayValue" {
+								isNew = true
+							}
+						}
+					}
+					if id, ok := as.Lhs[i].(*ast.Ident); ok && isNew {
+						fresh[info.ObjectOf(id)] = true
+					}
+				}
+			}
+			return true
+		})
+		ok, why := true, ""
+		nArr := 0
+		ast.Inspect(gv.Body, func(n ast.Node) bool {
+			if _, isLit := n.(*ast.FuncLit); isLit {
+				return false
+			}
+			rs, isRet := n.(*ast.ReturnStmt)
+			if !isRet || len(rs.Results) == 0 {
+				return true
+			}
+			res := ast.Unparen(rs.Results[0])
+			if exprStr(res) == "nil" {
+				return true
+			}
+			t := info.TypeOf(res)
+			if id, isId := res.(*ast.Ident); isId && fresh[info.Uses[id]] {
+				nArr++
+				return true
+			}
+			if c, isCall := res.(*ast.CallExpr); isCall {
+				if cal, ok2 := calleeOf(info, c).(*types.Func); ok2 && cal.Name() == "NewArrayValue" {
+					nArr++
+					return true
+				}
+			}
+			if t != nil && (isArrPtr(t) || isNamed(t, modPath+"/data", "GetValue") || isNamed(t, modPath+"/data", "Value")) {
+				ok, why = false, "returns "+exprStr(res)+", which is not allocated in the method"
+			}
+			return true
+		})
+		if ok && nArr == 0 {
+			return false, "builds no array"
+		}
+		return ok, why
+	}
+	for _, fd := range funcDecls(np) {
+		if fd.Body == nil {
+			continue
+		}
+		fk := funcKey(np, fd)
+		ast.Inspect(fd.Body, func(n ast.Node) bool {
+			is, ok := n.(*ast.IfStmt)
+			if !ok {
+				return true
+			}
+			copies := false
+			ast.Inspect(is.Body, func(m ast.Node) bool {
+				if c, ok := m.(*ast.CallExpr); ok && c06IsCopierCall != nil && c06IsCopierCall(info, c) {
+					copies = true
+				}
+				return true
+			})
+			if !copies {
+				return true
+			}
+			// conjuncts of the form !P(x)
+			var walk func(e ast.Expr)
+			walk = func(e ast.Expr) {
+				e = ast.Unparen(e)
+				if be, ok := e.(*ast.BinaryExpr); ok && be.Op == token.LAND {
+					walk(be.X)
+					walk(be.Y)
+					return
+				}
+				u, ok := e.(*ast.UnaryExpr)
+				if !ok || u.Op != token.NOT {
+					return
+				}
+				c, ok := ast.Unparen(u.X).(*ast.CallExpr)
+				if !ok || len(c.Args) != 1 {
+					return
+				}
+				pd := declByObj[calleeOf(info, c)]
+				if pd == nil || pd.Body == nil {
+					return
+				}
+				if !isNamed(info.TypeOf(c.Args[0]), modPath+"/data", "GetValue") {
+					return
+				}
+				key := fk + "#copy-skipped:" + pd.Name.Name
+				bad := ""
+				nTypes := 0
+				ast.Inspect(pd.Body, func(m ast.Node) bool {
+					cc, ok := m.(*ast.CaseClause)
+					if !ok {
+						return true
+					}
+					returnsTrue := false
+					for _, st := range cc.Body {
+						if rs, ok := st.(*ast.ReturnStmt); ok && len(rs.Results) == 1 && exprStr(rs.Results[0]) == "true" {
+							returnsTrue = true
+						}
+					}
+					if !returnsTrue {
+						return true
+					}
+					for _, te := range cc.List {
+						if tv, ok := info.Types[te]; ok && tv.IsType() {
+							nTypes++
+							if okT, why := buildsFresh(tv.Type); !okT && bad == "" {
+								bad = fmt.Sprintf("%s (%s)", types.TypeString(tv.Type, types.RelativeTo(np.Types)), why)
+							}
+						}
+					}
+					return true
+				})
+				switch {
+				case bad != "":
+					r.bad(key, c.Pos(), fmt.Sprintf("the copy of an array before it is stored is skipped when %s accepts the producing node, and %s accepts %s: the array it evaluates to is still held elsewhere, so the store aliases it", pd.Name.Name, pd.Name.Name, bad))
+				case nTypes > 0:
+					r.ok(key, c.Pos(), fmt.Sprintf("the copy is skipped only for node types whose evaluation allocates the array it returns (%d type(s) accepted by %s)", nTypes, pd.Name.Name))
+				}
+			}
+			walk(is.Cond)
+			return true
+		})
+	}
 }
